@@ -4,6 +4,22 @@ from harness.drivers import walks
 
 
 def run(ck):
+    # Machine.tla: TLC checks Impl |= Props on the bounded instance and exports programs (spec -> code)
+    from vlib import machine
+    from harness import gen as _gen
+    _tids = _gen.Tids(100000)
+    mprogs = []
+    mprogs += machine.run_machine(ck, "Z2", "fermionic", "PoolZ2s", "OpsAll", rank=2, depth=2, mod=40, tids=_tids)
+    mprogs += machine.run_machine(ck, "Z4", "abelian", "PoolZ4", "OpsAll", rank=2, depth=2, mod=40, tids=_tids)
+    if ck.tier != "quick":
+        mprogs += machine.run_machine(ck, "U1", "fermionic", "PoolU1s", "OpsAll", rank=2, depth=2, mod=60, tids=_tids)
+    if ck.tier != "quick":
+        mprogs += machine.run_machine(ck, "Z2Z2", "abelian", "PoolZ2Z2", "OpsAll", rank=2, depth=2, mod=60, tids=_tids)
+    if ck.tier != "quick":
+        mprogs += machine.run_machine(ck, "U1U1", "fermionic", "PoolU1U1", "OpsAll", rank=2, depth=2, mod=100, tids=_tids)
+    if ck.tier != "quick":
+        mprogs += machine.run_machine(ck, "Z2", "abelian", "PoolZ2t", "OpsAll", rank=2, depth=3, mod=200, tids=_tids)
+    ck.conform(mprogs)
     q = ck.tier == "quick"
     tids = gen.Tids()
     progs = walks.walk_programs(ck.seed, 320 if q else 6000, depth=7 if q else 9, tids=tids)
